@@ -79,7 +79,8 @@ CHECKS = {
               "for single renamings and sequences (composition of substitutions, swaps through a temporary name), with the prescribed "
               "interface update, identity on absent variables and IncompatibleArgs on clashes. rename_variables replayed through the "
               "model; results compared with explicit substitution, exactly. C16_code_rename_variable: PolyhedralTerm.rename_variable "
-              "as translated from polyhedra.py on this run (gen/TermGen.v) equals the model function (T1 tie)."),
+              "as translated from polyhedra.py on this run (gen/TermGen.v) equals the model function, and C16_code_rename_variables: "
+              "PolyhedralIoContract.rename_variables as translated from polyhedral_iocontract.py (gen/WrapGen.v) equals the model's fold (T1 tie)."),
         design="4 (C16)", note=NOTE_R),
     "C19": dict(
         technique="Coq proof over the regenerated IoContract.__eq__/__hash__ (T1) and the term model + pairwise observation of == and hash() on real objects",
@@ -168,12 +169,14 @@ CHECKS = {
               "every public operation is run on adversarial shapes with operands snapshotted around failing calls."),
         design="4 (C14)", note=NOTE_R + " Integer literals >= 2^1024 and unknown extra keys of a string-form dictionary still escape (outside the enumerated faults; DESIGN 5)."),
     "C17": dict(
-        technique="Coq proof about a hand-written executable model + correspondence with LP replay + exact semantic oracle",
+        technique="Coq proof about a hand-written executable model proved equal to the translation of the source (T1) + correspondence with LP replay + exact semantic oracle",
         text=("Theorems C17_contains/_intersect/_le_sound/_disjoint_check/_merge (props/C17.v) about model/Compound.v for every exact "
               "total LP oracle: membership iff some alternative, intersection alternatives denote exactly the intersection of the "
               "unions with only empty ones dropped, <= sound, overlap rejected iff two alternatives share a behaviour (touching "
               "counts), compound merge; every NestedPolyhedra/PolyhedralIoContractCompound operation is replayed through the model "
-              "(exact comparison, canary), and C17 is re-decided exactly on the real objects."),
+              "(exact comparison, canary), and C17 is re-decided exactly on the real objects. C17_code_*: every method of "
+              "NestedTermList / IoContractCompound as translated from compundiocontract.py on this run (gen/CompoundGen.v) equals "
+              "the model function (T1 tie: an edit of the source breaks the matching obligation)."),
         design="4 (C17)", note=NOTE_R),
     "C18": dict(
         technique="Coq proof about a hand-written executable model with validated geometric oracles + correspondence + exact end-to-end oracle",
